@@ -69,6 +69,9 @@ def main():
                 results[name] = res
                 m = json.load(open(src + '/meta.json'))
                 m['rechecked'] = {'repo_head': head, 'checks': res}
+                if mode == 'seeds' and 'apply' not in res and m.get('confirmed', {}).get('check_exit', 0) is None:
+                    r0 = list(res.values())[0]          # the first run of the check against this change (confirm_seed.sh with NOCHECK=1)
+                    m['confirmed']['check_exit'], m['confirmed']['check_output_tail'] = r0['exit'], r0['tail']
                 json.dump(m, open(src + '/meta.json', 'w'), indent=1)
                 if 'apply' in res:
                     verdict = 'DOES NOT APPLY'
